@@ -7,3 +7,5 @@ import AITB.Props.C03Upper
 import AITB.Props.C03Refs
 import AITB.Props.C03Anytime
 import AITB.Props.C03Cons
+import AITB.Props.C03Horizon
+import AITB.Props.C03Tie
